@@ -468,11 +468,12 @@ fn gen(tier: &str, seed: u64, out: &mut dyn FnMut(String)) {
         if thorough || gi < 3 { out(format!("gcreate8 {n} {sh} {nd}")); }
     }
     // ---- (20) axis LENGTHS that f32 / f64 / u32 cannot hold, on EMPTY arrays (no memory needed, through the model): the shape must come
-    //      back digit for digit from every step
+    //      back digit for digit from every step (no resize to a NON-zero huge count: a rewrite that allocates the target first aborts the
+    //      whole process, which cannot be caught and would hide every other failing case of the run)
     for big in [(1usize << 24) + 1, (1 << 31) + 1, 1 << 32, (1 << 32) + 1, (1 << 53) + 1, (1 << 63) + 1, usize::MAX] {
         for a in [format!("i0,{big}"), format!("i{big},0"), format!("i1,0,{big}")] {
             for st in ["ravel".to_string(), "-".to_string(), "squeeze:none".to_string(), "expand:0".to_string(), "expand:-1,1|squeeze:-1,1".to_string(), "atleast:3".to_string(), format!("reshape:{big},0"), format!("reshape:0,{big}|reshape:0"), format!("reshape:{big}"),
-                       format!("resize:0,{big}"), format!("resize:{big},0,1"), format!("resize:{big}"), "cycle_take:3".to_string(), "squeeze:0".to_string(), "squeeze:-1".to_string()] {
+                       format!("resize:0,{big}"), format!("resize:{big},0,1"), "cycle_take:3".to_string(), "squeeze:0".to_string(), "squeeze:-1".to_string()] {
                 out(format!("chain {a} {st}"));
             }
         }
@@ -663,6 +664,19 @@ macro_rules! round5_types {
     }};
 }
 
+/// … ONE of the four round-5 images on ONE receiver, chosen by `$pick` (for the plain tag arrays, whose elements never all print alike)
+macro_rules! round5_one {
+    ($call:ident, $pick:expr, $small:expr, $($pre:expr),*) => {{
+        let recs: &[bool] = if ($pick >> 5) % 2 == 0 { &[true] } else { &[false] };
+        match (($pick >> 3) % 4, $small) {
+            (1, _) | (3, false) => $call(recs, "Tuple2<f64,i32> with the f64 special values inside (bit-wise)", $($pre),*, |t: i64| Tuple2(special_f64(t), (t % 3) as i32), |x: &TN, y: &TN| x.0.to_bits() == y.0.to_bits() && x.1 == y.1),
+            (2, true) => $call(recs, "Tuple2<String,String> print-alike values", $($pre),*, tag_pa, |x: &PA, y: &PA| x == y),
+            (3, true) => $call(recs, "List<String> print-alike values", $($pre),*, tag_pl, |x: &PL, y: &PL| x == y),
+            _ => $call(recs, "f32 special values", $($pre),*, special_f32, |x: &f32, y: &f32| x.to_bits() == y.to_bits()),
+        }
+    }};
+}
+
 /// run `$f!(label, from, same)` for every image type until one reports a divergence
 macro_rules! every_type {
     ($call:ident, $($pre:expr),*) => {
@@ -841,7 +855,11 @@ fn observe(shape: &[usize], tags: &[i64], steps: &[Step], step_text: &str, all_t
     let out_len = match &canon { Ok(Ok(g)) => g.get_elements().map_or(0, |e| e.len()), _ => 0 };
     let div = div.or_else(|| layout_types!(image_on, pick, all_types && tags.len() <= 3000 && out_len <= 3000, shape, tags, steps, &canon));
     // round 5: f32 special values (NaN payloads) and the print-alike element types
-    let div = div.or_else(|| if all_types { round5_types!(image, tags.len() <= 3000 && out_len <= 3000, shape, tags, steps, &canon) } else { None });
+    //          — all four on both receivers when the source is spelled value by value (the value-relation streams), one of them on one
+    //          receiver (rotating with the line) for the plain tag arrays
+    let plain_tags = tags.windows(2).all(|w| w[1] == w[0] + 1);
+    let small = tags.len() <= 3000 && out_len <= 3000;
+    let div = div.or_else(|| if !all_types { None } else if plain_tags { round5_one!(image_on, pick, small, shape, tags, steps, &canon) } else { round5_types!(image, small, shape, tags, steps, &canon) });
     match div { Some(d) => format!("{d}; i64 run: {}", truncate(&obs, 300)), None => obs }
 }
 /// compare a giant result IN PLACE with the native plan (shape, count, every element `from(plan.at(p))`); never formats the array.
